@@ -909,3 +909,60 @@ Proof.
   intros t local n attrs expected K. unfold cond_rpki.
   rewrite (proj2 (C12_validate_none_iff_known t local n attrs) K). reflexivity.
 Qed.
+
+(* ======================================================================= *)
+(* The hand-over of the table to policy evaluation over assignment histories *)
+
+(* the table is handed over iff some policy of the assignment has an rpki condition,
+   whatever history of add / set / delete calls produced the assignment *)
+Theorem C12_handover_iff_rpki_policy : forall (l : list N),
+  needs_rpki l = true <-> exists p k, In p l /\ pol_state p = Some k.
+Proof.
+  intro l. unfold needs_rpki. rewrite existsb_exists. split.
+  - intros [p [H1 H2]]. unfold pol_has_rpki in H2. destruct (pol_state p) as [k|] eqn:E; [|discriminate].
+    exists p, k. split; assumption.
+  - intros [p [k [H1 H2]]]. exists p. split; [exact H1|]. unfold pol_has_rpki. rewrite H2. reflexivity.
+Qed.
+
+(* "the validation state used by policy", through the gated hand-over: an assignment (import,
+   global export, per-peer export) built by ANY history of assignment operations accepts a
+   route - outside C12-3 - exactly when it contains a policy `rpki k -> accept` for the RFC 6811
+   state k of the route *)
+Theorem C12_assignment_accepts_iff_state_outside_known :
+  forall (ops : list op) (local : N) (n : net) (attrs : list (N * list N))
+         (segs : option (list (N * list N))) (l : list N),
+    Forall op_ok ops -> net_ok n -> attrs_decode attrs segs ->
+    let t := run_ops ops rtab_new in
+    ~ Known_C12_3 t n ->
+    exists b, asg_accepts t local n attrs (Some l) = POk b
+      /\ (b = true <-> exists p k, In p l /\ pol_state p = Some k
+                                  /\ rfc6811 (vrps_of (sel (n_fam n) t)) (route_of n (origin_spec local segs)) = state_of k).
+Proof.
+  intros ops local n attrs segs l F Hn D t NK.
+  destruct (C12_validate_code_eq_rfc6811_outside_known ops local n attrs segs F Hn D NK) as [res [H1 H2]].
+  fold t in H1, H2. unfold asg_accepts.
+  destruct (needs_rpki l) eqn:NR.
+  - rewrite H1. eexists. split; [reflexivity|]. rewrite existsb_exists. split.
+    + intros [p [Hin Hc]]. destruct (pol_state p) as [k|] eqn:E; [|discriminate]. exists p, k.
+      split; [exact Hin|]. split; [exact E|]. cbn [cond_of] in Hc. apply vstate_eqb_eq in Hc. rewrite <- H2, Hc. reflexivity.
+    + intros [p [k [Hin [E Hs]]]]. exists p. split; [exact Hin|]. rewrite E. cbn [cond_of]. apply vstate_eqb_eq.
+      apply state_of_inj. rewrite H2. exact Hs.
+  - exists false. split; [reflexivity|]. split; [discriminate|].
+    intros [p [k [Hin [E _]]]]. exfalso.
+    assert (needs_rpki l = true) by (apply C12_handover_iff_rpki_policy; exists p, k; split; assumption). congruence.
+Qed.
+
+(* the slots after any history carry the flag computed from their final list: what
+   run_policy_case prints for a slot is (needs_rpki l, l) *)
+Theorem C12_history_flag_is_final_list : forall (sts : list (N * N * list N)) (s0 : slots),
+  let s := fst (slots_run s0 sts) in
+  forall a, In a [sl_import s; sl_export s; sl_peer s] ->
+  forall l, a = Some l -> v_slot a = VL [VL [VB (needs_rpki l); VNs l]].
+Proof. intros sts s0 s a _ l E. subst a. reflexivity. Qed.
+
+Example assignment_history_example :
+  let s := fst (slots_run {| sl_import := None; sl_export := None; sl_peer := None |}
+                          [(0, 0, [2]); (0, 0, [3]); (2, 0, [3]); (2, 0, [1]); (2, 2, [1]); (1, 0, [0]); (1, 0, [0])]) in
+  sl_import s = Some [3; 2] /\ sl_peer s = Some [3] /\ sl_export s = Some [0]
+  /\ needs_rpki [3; 2] = true /\ needs_rpki [3] = false.
+Proof. repeat split; reflexivity. Qed.
